@@ -165,12 +165,40 @@ def invertedSimpleVotes (v : V) : Except Err V := do
   let r ← kvs.mapM (fun p => do let x ← p.2.asNum; pure (p.1, V.num (-x)))
   pure (.dict r)
 
+/-- `ranks[cand].append(max_rank - i)` on an insertion-ordered dict (convert.MergedSelections._get_ranks) -/
+def addRank (acc : List (Key × List Nat)) (k : Key) (r : Nat) : List (Key × List Nat) :=
+  if acc.any (fun p => p.1 = k) then acc.map (fun p => if p.1 = k then (p.1, p.2 ++ [r]) else p) else acc ++ [(k, [r])]
+
+/-- stable `sorted(..., key=(-len(ranks), -sum(ranks)))`: `x` goes before the first entry it strictly beats -/
+def insertRanked (x : Key × List Nat) : List (Key × List Nat) → List (Key × List Nat)
+  | [] => [x]
+  | y :: ys =>
+      if x.2.length > y.2.length ∨ (x.2.length = y.2.length ∧ x.2.foldl (· + ·) 0 > y.2.foldl (· + ·) 0)
+      then x :: y :: ys else y :: insertRanked x ys
+
+/-- convert.MergedSelections.convert (convert.py L663-692): the candidates of all partial selections, ordered by the
+    number of selections naming them, then by their summed positions from the end; ties keep the order of first
+    appearance, i.e. THE ORDER OF THE PARTIAL RESULTS -/
+def mergedSelections (v : V) : Except Err V := do
+  let parts ← match v with
+    | .dict kvs => pure (kvs.map (·.2))
+    | .list l => pure l
+    | _ => throw eType
+  let ranks ← parts.foldlM (fun acc p => do
+    let l ← p.iter        -- `len(clist)`, `enumerate(clist)`: a list, or the keys of an (empty) dict result
+    let m := l.length - 1
+    (l.zipIdx).foldlM (fun acc xi => match xi.1.toKey? with
+      | some k => pure (addRank acc k (m - xi.2))
+      | Option.none => throw eType) acc) ([] : List (Key × List Nat))
+  pure (.list ((ranks.foldl (fun sorted x => insertRanked x sorted) []).map (fun p => V.ofKey p.1)))
+
 /-! ## converters -/
 
 inductive Conv where
   | voteTotals
   | constituencyTotals
   | mergedDistributions
+  | mergedSelections
   | selectionToDistribution (amount : V)
   | invertedSimpleVotes
   | byConstituency (c : Conv)
@@ -183,6 +211,7 @@ def Conv.run : Conv → V → Except Err V
   | .voteTotals, v => C14.voteTotals v
   | .constituencyTotals, v => C14.constituencyTotals v
   | .mergedDistributions, v => C14.mergedDistributions v
+  | .mergedSelections, v => C14.mergedSelections v
   | .selectionToDistribution amount, v => C14.selectionToDistribution amount v
   | .invertedSimpleVotes, v => C14.invertedSimpleVotes v
   | .byConstituency c, v => do            -- convert.py L800-812
